@@ -180,6 +180,8 @@ DIRECTION_POOL = [
     (0.5, 0.5, 0), (0.5, 0, 0.5), (0, 0.5, 0.5),
     (1 / 3, 1 / 3, 1 / 3), (0.2, 0.3, 0.5), (0.7, 0.2, 0.1),
     (0.05, 0.05, 0.9), (0.1, 0.6, 0.3),
+    # two equal components (X/Z-, X/Y-, Y/Z-symmetric noise)
+    (0.1, 0.8, 0.1), (0.4, 0.2, 0.4), (0.8, 0.1, 0.1), (0.45, 0.45, 0.1), (0.1, 0.45, 0.45),
 ]
 
 
